@@ -28,14 +28,14 @@ else:
     shutil.copy(so, os.path.join(wt, "wavespectra/partition/"))
 try:
     if os.path.exists(demo):
-        res["demo_on_head"] = sh(f"cd {wt} && /venv/bin/python -W ignore {demo}").returncode
+        res["demo_on_head"] = sh(f"cd {wt} && PYTHONPATH={wt} /venv/bin/python -W ignore {demo}").returncode
     r = sh(f"git -C {wt} apply {patch}")
     if r.returncode != 0:
         print("PATCH DOES NOT APPLY:", r.stderr); sys.exit(3)
     if sh(f"git -C {wt} diff --name-only").stdout.find("specpart/") >= 0 and not inplace:
         sh(f"cd {wt} && /venv/bin/python setup.py build_ext --inplace -q")
     if os.path.exists(demo):
-        res["demo_on_mutant"] = sh(f"cd {wt} && /venv/bin/python -W ignore {demo}").returncode
+        res["demo_on_mutant"] = sh(f"cd {wt} && PYTHONPATH={wt} /venv/bin/python -W ignore {demo}").returncode
     if not nobase:
         b = sh(f"/venv/bin/python {ROOT}/tools/baseline_check.py {wt}")
         res["baseline"] = b.stdout.strip()[-200:]
